@@ -91,6 +91,9 @@ def node_extents(res):
 
 def run(report, index, tier):
     M = models(index)
+    from .c20 import guard_tokens, guard_transcriptions
+    guard_tokens(report, index, M)
+    guard_transcriptions(index, M, report, depth=2)
     g, A, am, lm = M.grammar, M.actions, M.astmodel, M.lexmodel
     report.explanation = (
         'Every node construction site of every parser action (per '
